@@ -171,6 +171,43 @@ fn well_sorted(e: &SExp, env: &Env) -> bool {
     }
 }
 
+/// Constant folding inside rooc happens in f64, so a rewritten tree may differ from the original by
+/// a rounding error (`(x + -1) / 0.1` becomes `x / 0.1 + -10`, and 0.1 is not 1/10 in binary). A
+/// logic operator turns such an error into 0 against 1. An assignment at which an operand of a logic
+/// operator of the rewritten tree is within 1e-9 of 0 or 1 without being 0 or 1 is decided by that
+/// rounding and is not compared (the operands themselves still are, wherever they occur outside a
+/// logic operator, and at every other assignment).
+fn logic_operand_decided_by_rounding(e: &SExp, env: &Env) -> bool {
+    let near = |x: &SExp| -> bool {
+        let mut vars = vec![];
+        x.vars(&mut vars);
+        if vars.is_empty() {
+            return false;
+        }
+        match x.eval(env) {
+            Some(v) => {
+                let dist = |t: f64| {
+                    let t = big(t);
+                    if v > t { v.clone() - t } else { t - v.clone() }
+                };
+                let (d0, d1) = (dist(0.0), dist(1.0));
+                (d0 != big(0.0) && d0 < big(1e-9)) || (d1 != big(0.0) && d1 < big(1e-9))
+            }
+            None => false,
+        }
+    };
+    let rec = |x: &SExp| logic_operand_decided_by_rounding(x, env);
+    match e {
+        SExp::Num(_) | SExp::Var(_) => false,
+        SExp::Neg(a) | SExp::Abs(a) => rec(a),
+        SExp::Add(a, b) | SExp::Sub(a, b) | SExp::Mul(a, b) | SExp::Div(a, b) => rec(a) || rec(b),
+        SExp::Min(v) | SExp::Max(v) => v.iter().any(rec),
+        SExp::Not(a) => near(a) || rec(a),
+        SExp::Xor(a, b) | SExp::Implies(a, b) | SExp::Iff(a, b) => near(a) || near(b) || rec(a) || rec(b),
+        SExp::And(v) | SExp::Or(v) => v.iter().any(|x| near(x) || rec(x)),
+    }
+}
+
 fn has_division(e: &SExp) -> bool {
     let rec = has_division;
     match e {
@@ -226,6 +263,7 @@ fn check_tree(exp: &SExp, structural: bool) -> Outcome {
             };
             match r.eval(&env) {
                 Some(got) if close(&got, &want) => {}
+                Some(_) if logic_operand_decided_by_rounding(&r, &env) => {}
                 got => {
                     fails.push((
                         format!("{what}:value-changed"),
@@ -296,6 +334,17 @@ fn respell(e: &SExp, choices: &[u8], k: &mut usize) -> SExp {
             spelled(*c, v)
         }
         SExp::Var(_) => e.clone(),
+        // a unary minus is the constant -1 written without digits
+        SExp::Neg(a) if !matches!(**a, SExp::Num(_)) => {
+            let v = pick(k);
+            let inner = r(a, k);
+            match v {
+                1 | 4 | 7 => SExp::Mul(SExp::Num(-1.0).b(), inner.b()),
+                2 | 5 => SExp::Sub(SExp::Num(0.0).b(), inner.b()),
+                8 => SExp::Mul(inner.b(), SExp::Num(-1.0).b()),
+                _ => SExp::Neg(inner.b()),
+            }
+        }
         SExp::Neg(a) => SExp::Neg(r(a, k).b()),
         SExp::Abs(a) => SExp::Abs(r(a, k).b()),
         SExp::Not(a) => SExp::Not(r(a, k).b()),
@@ -450,6 +499,25 @@ impl Prop for C10 {
                 v.push(Case::Twin { model: base.clone(), choices: vec![v1, 0, v2, 0, 0, 0] });
             }
         }
+        // a unary minus over a sum with a constant, against -1 * (..), (0 - (..)), (..) * -1
+        for (rel, inner, rhs, obj_max) in [
+            (Cmp::Ge, SExp::Sub(SExp::var("x0").b(), SExp::Num(3.0).b()), -8.0, true),
+            (Cmp::Le, SExp::Add(SExp::var("x0").b(), SExp::Num(3.0).b()), -5.0, false),
+            (Cmp::Ge, SExp::Add(SExp::Num(2.0).b(), SExp::Mul(SExp::Num(2.0).b(), SExp::var("x0").b()).b()), -12.0, true),
+        ] {
+            let obj = if obj_max { SObj::Max(SExp::var("x0")) } else { SObj::Min(SExp::var("x0")) };
+            let m = ModelCase {
+                vars: vec![("x0".into(), Dom::NonNeg(0.0, Some(16.0)))],
+                cons: vec![SCons { name: String::new(), lhs: SExp::Neg(inner.b()), rel, rhs: SExp::Num(rhs), bare: false }],
+                obj,
+                structural_logic: true,
+                mark_all_used: false,
+                point_seed: 9,
+            };
+            for v1 in [1u8, 2, 8] {
+                v.push(Case::Twin { model: m.clone(), choices: vec![v1, 0, 0, 0, 0, 0] });
+            }
+        }
         v
     }
     fn exhaustive_stratum(&self, tier: Tier) -> Option<String> {
@@ -465,7 +533,7 @@ impl Prop for C10 {
         }
     }
     fn rule(&self) -> String {
-        "(a) expression trees: exhaustively all trees with <= 4 (thorough 5) nodes over {0, 1, -0, 2, -3, x, y} and all operators (neg, not, abs, + - * /, and, or, xor, implies, iff, min, max), random trees to depth 6 incl. n-ary blocks, each in the structural and the BinOp/UnOp encoding; Exp::simplify, Exp::flatten and flatten+simplify are compared with the original at every assignment over {-2,-1,0,1,3}^k where the original is defined (exact rational evaluation by the harness), simplify must be idempotent (JSON equality), and a division by zero or by a non-constant must survive. (b) twin models: a generated model and a copy whose constants and coefficients are re-spelled (x*c, (c1+c2)*x, -(c)*x, (0-c)*x, -(c*x), x/(1/c), c*1, 2c/2): both compile or both fail with the same error kind, and at the shared test points both linear models admit the same assignments with the same best objective. Non-trivial = (a) the rewrite changed the tree, (b) the model has a non-affine operator and the test set holds feasible and infeasible points. Distinct = distinct case text.".into()
+        "(a) expression trees: exhaustively all trees with <= 4 (thorough 5) nodes over {0, 1, -0, 2, -3, x, y} and all operators (neg, not, abs, + - * /, and, or, xor, implies, iff, min, max), random trees to depth 6 incl. n-ary blocks, each in the structural and the BinOp/UnOp encoding; Exp::simplify, Exp::flatten and flatten+simplify are compared with the original at every assignment over {-2,-1,0,1,3}^k where the original is defined (exact rational evaluation by the harness), simplify must be idempotent (JSON equality), and a division by zero or by a non-constant must survive. (b) twin models: a generated model and a copy whose constants and coefficients are re-spelled (x*c, (c1+c2)*x, -(c)*x, (0-c)*x, -(c*x), x/(1/c), c*1, 2c/2, and a unary minus over a sub-expression as -1*(..), (..)*-1, 0-(..)): both compile or both fail with the same error kind, and at the shared test points both linear models admit the same assignments with the same best objective. Non-trivial = (a) the rewrite changed the tree, (b) the model has a non-affine operator and the test set holds feasible and infeasible points. Distinct = distinct case text.".into()
     }
     fn check(&self, case: &Case) -> Outcome {
         match case {
